@@ -25,7 +25,7 @@ TASKS_PER_CHILD = 200
 
 RULE = ('case = (mode of the target loop L: idle / running via loop_in_thread ("forever") / loop_in_thread racing with '
         'the callers ("race") / caller 0\'s own loop / closed; per caller an awaitable script return|raise (an Exception, a RuntimeError-subclass or a NotImplementedError instance) after no sleep or '
-        'sleep d in {0,5,50} ticks and a form coroutine|task|future; a schedule = the thread chosen at every gate).  The REAL '
+        'sleep d in {0,5,50} ticks and a form coroutine|task|future (closed mode also: a future/task of L already completed before the call); a schedule = the thread chosen at every gate).  The REAL '
         'ensure_aw / run_aw_threadsafe / loop_in_thread / _get_loop_lock run under gated threads; gates = L.is_running, '
         'L.call_soon_threadsafe from a foreign thread, every iteration of L, the lock-table read, Lock acquire/release, pool '
         'submit / future.result, sleep(0).  Observation = the totally ordered log of visible operations (incl. thread and loop '
@@ -118,6 +118,10 @@ def corpus():
         mk('race', [['raise_ni', None], ['raise_rt', 5]], ['coro', 'coro']),
         mk('own', [['raise_rt', None], ['raise_ni', 5]], ['coro', 'task']),
         mk('closed', [['raise_rt', None], ['raise_ni', None]], ['coro', 'coro']),
+        # seeded C17-m9: closed target, awaitable = a future / task of it that is already COMPLETED: still RuntimeError
+        mk('closed', [['ret', None], ['raise', None]], ['donefut', 'donetask']),
+        mk('closed', [['raise_rt', None], ['ret', None]], ['donefut', 'donetask']),
+        mk('closed', [['ret', None], ['ret', 5], ['raise_ni', None]], ['donetask', 'coro', 'donefut']),
         # borrowers queue on the per-loop lock
         mk('idle', [['ret', 50], ['raise', 5]], ['coro', 'coro'], ['c0', 'c0', 'c1', 'c1'] + ['jc0'] * 10 + ['jc1'] * 4),
         # the loop_in_thread doctest shape, two callers, and the racing start
@@ -159,6 +163,9 @@ def gen_exhaustive(tier, seed):
             else:
                 pb, cap = (2, 500) if quick else (3, 5000)
             jobs.append((mk(mode, scripts, forms), pb, cap))
+            if mode == 'closed':      # the same scripts with already-completed futures / tasks of the closed loop
+                for dforms in (['donefut', 'donetask'], ['donetask', forms[1]], [forms[0], 'donefut']):
+                    jobs.append((mk(mode, scripts, dforms), pb, cap))
     with mp.get_context('fork').Pool(C.NPROC) as pool:
         outs = pool.map(_explore, jobs, chunksize=1)
     out = []
@@ -177,7 +184,7 @@ def _rand_case(rnd, n=None):
     n = n or rnd.choice([3, 3, 3, 2])
     mode = rnd.choice(['idle', 'idle', 'forever', 'race', 'race', 'own', 'closed'] if n == 3 else list(D.MODES))
     scripts = [[rnd.choice(KINDS), rnd.choice(SLEEPS)] for _ in range(n)]
-    forms = [rnd.choice(D.FORMS) for _ in range(n)]
+    forms = [rnd.choice(D.FORMS + D.DONE_FORMS if mode == 'closed' else D.FORMS) for _ in range(n)]
     return mk(mode, scripts, forms, rseed=rnd.randrange(1 << 30), stay=rnd.choice([0.0, 0.3, 0.6, 0.85]))
 
 
@@ -256,7 +263,7 @@ def distribution(cases, obs):
              k1_signature=0)
     for m in D.MODES:
         d['mode_' + m] = 0
-    for f in D.FORMS:
+    for f in D.FORMS + D.DONE_FORMS:
         d['form_' + f] = 0
     for c, o in zip(cases, obs):
         d['cases'] += 1
